@@ -74,6 +74,8 @@ pub mod cq {
     noschema_harness!(ns_struct, SqPaddedC, 11, 0);
     noschema_harness!(ns_enum, EqData, 11, 0);
     schema_harness!(ws_u32, u32, 11, 0);
+    schema_harness!(ws_i64, i64, 11, 0);
+    schema_harness!(ws_bool, bool, 11, 0);
 }
 pub mod ct {
     use super::*;
@@ -81,14 +83,20 @@ pub mod ct {
     noschema_harness!(ns_opt, Option<u16>, 11, 0);
     noschema_harness!(ns_vec_string, Vec<String>, 11, 2);
     noschema_harness!(ns_nested, SqNestedPad, 11, 0);
+}
+
+/// Time types, bounded (the full 2^64-second range needs 128-bit division by 10^9, which CBMC's
+/// bit-blasting does not finish: 16-bit seconds take ~10 min): seconds < 2^16, every nanosecond value.
+/// save/load *with schema section* for anything but a primitive does not finish (R17 and schema depth);
+/// kept for manual runs, in no tier.
+pub mod cx {
+    use super::*;
+    use crate::dtypes::*;
     schema_harness!(ws_vec_u16, Vec<u16>, 11, 1);
     schema_harness!(ws_enum, EqU8, 11, 0);
     schema_harness!(ws_opt, Option<u8>, 11, 0);
     schema_harness!(ws_struct, SqPackedC, 11, 0);
 }
-
-/// Time types, bounded (the full 2^64-second range needs 128-bit division by 10^9, which CBMC's
-/// bit-blasting does not finish: 16-bit seconds take ~10 min): seconds < 2^16, every nanosecond value.
 pub mod tt {
     use super::*;
     kproof!(duration_secs16, 4, {
